@@ -135,6 +135,7 @@ var funcHdrRe = regexp.MustCompile(`^(assume\s+)?func\s+(.+?)\s*$`)
 var loopRe = regexp.MustCompile(`^loop\[(\d+)\]\s+(invariant|decreases|modifies)\s+(.*)$`)
 var labelRe = regexp.MustCompile(`^\[([A-Za-z0-9_.:-]+)\]\s*(.*)$`)
 var ghostAtRe = regexp.MustCompile(`^ghost\s+at\s+(entry|return|call\[(\d+|\*)\]\s+(\S+)\s+(before|after))\s*:\s*\$([A-Za-z0-9_]+)\s*=\s*(.*)$`)
+var retSpecRe = regexp.MustCompile(`^at\s+return\[(\d+|\*)\]\s+assert\s+(.*)$`)
 var callSpecRe = regexp.MustCompile(`^at\s+call\[(\d+|\*)\]\s+(\S+)\s+(assert|iter|assume|assume_before|releases)\s+(.*)$`)
 
 // parseContractFile reads //@ lines. pkgPath is the default package for relative names.
@@ -405,6 +406,20 @@ func parseClause(fc *FuncContract, s, src string, resolve func(string) string) e
 		}
 		fc.GhostAts = append(fc.GhostAts, g)
 	case "at":
+		if rm := retSpecRe.FindStringSubmatch(s); rm != nil {
+			c, err := mk(rm[2])
+			if err != nil {
+				return err
+			}
+			cs := CallSpec{Callee: "return", Kind: "retassert", Label: c.Label, E: c.E, Src: c.Src + " @" + src}
+			if rm[1] == "*" {
+				cs.Ord = -1
+			} else {
+				cs.Ord, _ = strconv.Atoi(rm[1])
+			}
+			fc.CallSpecs = append(fc.CallSpecs, cs)
+			return nil
+		}
 		m := callSpecRe.FindStringSubmatch(s)
 		if m == nil {
 			return fmt.Errorf("bad at-call clause")
